@@ -162,6 +162,7 @@ type env struct {
 	ntok  int
 	round int
 	signer *helpers.Signer
+	hook   *govHook
 }
 
 type token struct {
